@@ -451,10 +451,10 @@ func lcExplore(r *kit.Run, prop string, progs []lcProg, bound int) {
 							ackS = append(ackS, fmt.Sprintf("%s[%d-%d]ok=%v", a.act, a.start, a.end, a.ok))
 						}
 						if !inList(wantB, finalRead[0+1]) {
-							out = append(out, vfail{"durability", "acknowledged-write-lost:" + lcClass(pr), fmt.Sprintf("program %s: acknowledged operations %v; after restart b reads %s, admissible %v %s", pr, ackS, finalRead[1], wantB, why)})
+							out = append(out, vfail{"durability", "acknowledged-write-lost:" + lcClass(pr) + ":" + lcPreemptedIn(x), fmt.Sprintf("program %s: acknowledged operations %v; after restart b reads %s, admissible %v %s", pr, ackS, finalRead[1], wantB, why)})
 						}
 						if !inList(wantA, finalRead[0]) {
-							out = append(out, vfail{"durability", "record-a-wrong-after-restart:" + lcClass(pr), fmt.Sprintf("program %s: acknowledged operations %v; after restart a reads %s, admissible %v", pr, ackS, finalRead[0], wantA)})
+							out = append(out, vfail{"durability", "record-a-wrong-after-restart:" + lcClass(pr) + ":" + lcPreemptedIn(x), fmt.Sprintf("program %s: acknowledged operations %v; after restart a reads %s, admissible %v", pr, ackS, finalRead[0], wantA)})
 						}
 					}
 					return out
@@ -494,6 +494,26 @@ func lcExplore(r *kit.Run, prop string, progs []lcProg, bound int) {
 			}
 		}
 	}
+}
+
+// lcPreemptedIn names the function in which the schedule's FIRST preemption stopped a thread (without the module
+// path): it pins a finding to the window in which the interleaving starts, so that a loss through another window of
+// the same program is a different finding. Later preemptions of the same schedule are not part of the name (with
+// two preemptions the pairs would number in the hundreds and an exploration cut short by its budget could meet a
+// pair no earlier run had seen).
+func lcPreemptedIn(x *vrt.Exec) string {
+	if len(x.Preempted) == 0 {
+		return "no-preemption"
+	}
+	f := x.Preempted[0]
+	if i := strings.Index(f, "@"); i >= 0 {
+		f = f[i+1:]
+	}
+	f = strings.TrimPrefix(f, "github.com/hydraide/hydraide/app/")
+	if j := strings.Index(f, ".func"); j >= 0 { // closures: name the enclosing function
+		f = f[:j]
+	}
+	return "first-preemption-in=" + f
 }
 
 func lcClass(pr lcProg) string {
